@@ -34,7 +34,7 @@ type c06Fault struct {
 }
 
 func (f *c06Fault) String() string {
-	return fmt.Sprintf("storage fault %q at the %s peer's operation #%d on the %s", vstore.Injection(f.Mode).String(), map[string]string{"A": "active", "P": "passive"}[f.Side], f.K, map[string]string{"doc": "document", "checkpoint": "checkpoint documents"}[f.Keys])
+	return fmt.Sprintf("storage fault %q at the %s peer's operation #%d on the %s", vstore.Injection(f.Mode).String(), map[string]string{"A": "active", "P": "passive"}[f.Side], f.K, map[string]string{"doc": "document", "checkpoint": "checkpoint documents", "att": "attachment bodies"}[f.Keys])
 }
 
 func (f *c06Fault) tag() string {
@@ -79,8 +79,11 @@ func c06ArmFault(w *c06World, f *c06Fault) {
 	H := vb.H
 	H.Reset()
 	H.Select = func(op, key string) bool {
-		if f.Keys == "doc" {
+		switch f.Keys {
+		case "doc":
 			return key == doc
+		case "att":
+			return strings.HasPrefix(key, "_sync:att")
 		}
 		return strings.Contains(key, "checkpoint/")
 	}
@@ -92,8 +95,8 @@ func c06ArmFault(w *c06World, f *c06Fault) {
 		c06FaultM.Lock()
 		c06Reached = true
 		c06FaultM.Unlock()
-		if inj == vstore.CasMismatch && !write {
-			return vstore.None
+		if inj == vstore.CasMismatch && (!write || !c06CasOps[op]) {
+			return vstore.None // a CAS mismatch is only an answer of compare-and-swap operations
 		}
 		c06FaultM.Lock()
 		c06Fired, c06FiredOp = true, op
@@ -131,6 +134,9 @@ func c06SeamPeers(t *testing.T, protocol string) TestISGRPeers {
 	c06VBsMu.Unlock()
 	return peers
 }
+
+var c06CasOps = map[string]bool{"WriteCas": true, "Remove": true, "WriteWithXattrs": true, "WriteTombstoneWithXattrs": true,
+	"Update.write": true, "WriteUpdateWithXattrs.write": true, "UpdateXattrs": true, "SubdocInsert": true, "WriteSubDoc": true, "RemoveXattrs": true}
 
 var c06FaultModes = []vstore.Injection{vstore.ErrBefore, vstore.TimeoutAfter, vstore.CasMismatch}
 
@@ -237,6 +243,11 @@ func TestVerifC06Fault(t *testing.T) {
 		dirs = append(dirs, "pushpull")
 	}
 	c06FaultPart(t, r, "doc", prefixes, dirs)
+	// documents with attachments (one rewritten by every edit, one kept as a stub): faults on the document and on the
+	// attachment bodies; the peers must end with the same attachments, readable with the advertised digest
+	attPrefixes := [][]string{{"editPatt"}, {"editAatt"}, {"editPatt", "pushpull", "editPatt"}, {"editAatt", "pushpull", "editAatt"}}
+	c06FaultPart(t, r, "att", attPrefixes, dirs)
+	c06FaultPart(t, r, "doc", attPrefixes[2:], dirs)
 }
 
 func TestVerifC17Repl(t *testing.T) {
